@@ -150,12 +150,43 @@ static void relayout_phase(vp::Rng &rng, size_t npairs) {
     }
 }
 
+// tables with an area that ends exactly at 2^32 (see C02): reads inside it, and reads that run over the top of the address space
+static void top_area_phase() {
+    for (uint32_t topsize : {1u, 2u, 8u, 0x100u}) for (int big = 0; big < 2; big++) {
+        for (uint32_t off : {0u, topsize - 1}) {
+            std::string rep = vp::fmt("top %u %d inside %u\n", topsize, big, off);
+            vp::CaseScope scope([&] { return rep; });
+            TopTable T(topsize, false, big);
+            if (register_init(&T.t).code != REG_INIT_SUCCESS) { vp::fail("top-area:init-refused", "a table whose last area ends at 2^32 (no registers in it) is refused", rep); continue; }
+            T.top[off] = 0x4321;
+            uint16_t w[1] = {0};
+            RegisterAccess a = register_block_read(&T.t, T.areas[1].base + off, 1, w);
+            vp::count(); vp::cls("top-area:read-inside");
+            if (a.code != REG_ACCESS_SUCCESS) {
+                if (vp::excluded("top-area:read-refused")) vp::stats().excluded++;
+                else vp::fail("top-area:read-refused", vp::fmt("block read of the mapped address %u in an area that ends at 2^32: %s at %u", T.areas[1].base + off, code_name(a.code), a.address), rep);
+            } else if (w[0] != 0x4321) vp::fail("top-area:read-wrong-word", "block read from the top area returned another word", rep);
+        }
+        for (uint32_t k : {1u, 2u, 8u}) for (uint32_t j : {1u, 2u, 6u}) {
+            if (k > topsize) continue;
+            std::string rep = vp::fmt("top %u %d wrap %u %u\n", topsize, big, k, j);
+            vp::CaseScope scope([&] { return rep; });
+            TopTable T(topsize, false, big);
+            if (register_init(&T.t).code != REG_INIT_SUCCESS) continue;
+            vp::Block buf((size_t)(k + j) * 2);
+            RegisterAccess a = register_block_read(&T.t, (uint32_t)(0u - k), k + j, (RegisterAtom *)buf.p);
+            vp::count(); vp::cls("top-area:wrapping-read"); vp::nontrivial(vp::fnv(rep));
+            if (a.code == REG_ACCESS_SUCCESS) vp::fail("top-area:wrapping-read-accepted", vp::fmt("block read [%u,+%u) runs over the top of the address space and succeeded", (uint32_t)(0u - k), k + j), rep);
+        }
+    }
+}
 static void run() {
     auto &a = vp::args();
     vp::CaseScope scope([] { return g_prefix + ser_case(g_cur); });
     size_t ntables = (a.thorough() ? 40000 : 3000) / a.nshards;
     vp::stats().rule = vp::fmt("enum: %zu generated valid tables per shard with randomised content; every (address, length) of a window from 2 below the first area to 2 behind the last as block read "
                                "(exact-size caller buffer with canary words in front) and as iteration range x callback scripts (never stop; positive / negative result at the k-th call for every k; a nested iteration over another range started from inside the k-th call); block reads after the READABLE flag of an area was flipped at run time; block reads of 2^31..2^32-1 words from every area (must be refused at the first unmapped address without touching the buffer); histories over one table object: layout A initialised and read once, then the object re-laid-out (area dropped / inserted / split), initialised again and queried at an address layout A mapped under another area handle", ntables);
+    if (a.shard == 0) top_area_phase();
     vp::Rng rng(a.seed * 9973 + a.shard);
     FamilyOpts fo; fo.max_size = 8;
     FamilyOpts big; big.max_areas = 6; big.max_size = 20; big.max_regs = 12;   // thorough tier: every 8th table is a larger one
@@ -214,6 +245,7 @@ static void run() {
 }
 static bool parse_case(const std::string &text, Case &c);
 static bool replay(const std::string &text) {
+    if (text.rfind("top ", 0) == 0) { top_area_phase(); return vp::stats().failures.empty(); }
     size_t sep = text.find("----then----\n");
     if (sep != std::string::npos) {
         Case c1, c2;
